@@ -350,7 +350,13 @@ namespace {
       for (int i = 0; i < n; ++i) {
         J op = J::object();
         op["a"] = J(int(plan.below(uint64_t(T))));
-        if (plan.chance(200)) {
+        if (plan.chance(120)) {
+          // a name that is a function from the start and becomes a global later: the same reader body is
+          // evaluated before and after.  Always actor 0, so that the reads are ordered with the creation.
+          op["a"] = J(0);
+          op["k"] = J(plan.chance(350) ? "mkglobal" : "rdnv");
+          op["j"] = J(int(plan.below(2)));
+        } else if (plan.chance(200)) {
           op["k"] = J("lam");
           op["j"] = J(int(plan.below(2)));
           op["style"] = J(int(plan.below(3)));
@@ -436,6 +442,10 @@ namespace {
       for (size_t i = 0; i < fns.size(); ++i) {
         e.eval("def g" + std::to_string(i) + "(b0, b1, b2, n) { " + render_body(fns[i].at("body"), int(i)) + "}");
       }
+      e.eval("def shownv(x) { if (is_type(x, \"Function\")) { t(-1) } else { t(x) } }");
+      for (int j = 0; j < 2; ++j) {
+        e.eval("def NV" + std::to_string(j) + "() { return -1 }; def rdnv" + std::to_string(j) + "() { shownv(NV" + std::to_string(j) + ") }");
+      }
       // capturing lambdas, stored in globals so that every actor shares the same AST
       for (int j = 0; j < 2; ++j) {
         e.eval("global LAM" + std::to_string(j) + " = fun() { var c = " + std::to_string(70 + j) + "; return fun[c](x) { t(c); t(x); c + x } }()");
@@ -452,7 +462,11 @@ namespace {
           const J &op = ops[oi];
           OpScope scope;
           std::string o;
-          if (op.at("k").str() == "lam") {
+          if (op.at("k").str() == "mkglobal") {
+            o = eval_show(e, "global NV" + std::to_string(op.at("j").num() % 2) + " = " + std::to_string(900 + op.at("j").num() % 2) + "; 0");
+          } else if (op.at("k").str() == "rdnv") {
+            o = eval_show(e, "rdnv" + std::to_string(op.at("j").num() % 2) + "(); 0");
+          } else if (op.at("k").str() == "lam") {
             const std::string l = "LAM" + std::to_string(op.at("j").num() % 2);
             switch (op.at("style").num() % 3) {
             case 0: o = eval_show(e, l + "(1)"); break;
@@ -506,6 +520,7 @@ namespace {
       }
       std::vector<std::vector<int64_t>> want(size_t(T) + 1);
       std::vector<std::string> want_out(ops.size());
+      bool nv_global[2] = {false, false};
       for (size_t oi = 0; oi < ops.size(); ++oi) {
         const J &op = ops[oi];
         const int a = int(op.at("a").num());
@@ -513,7 +528,16 @@ namespace {
           continue;
         }
         auto &tr = want[size_t(a) + 1];
-        if (op.at("k").str() == "lam") {
+        if (op.at("k").str() == "mkglobal") {
+          nv_global[op.at("j").num() % 2] = true;
+          want_out[oi] = "=i:0";
+        } else if (op.at("k").str() == "rdnv") {
+          tr.push_back(nv_global[op.at("j").num() % 2] ? 900 + op.at("j").num() % 2 : -1);
+          want_out[oi] = "=i:0";
+          if (nv_global[op.at("j").num() % 2]) {
+            r.counters["probe_name_read_after_it_became_a_global"] += 1;
+          }
+        } else if (op.at("k").str() == "lam") {
           const int64_t c = 70 + op.at("j").num() % 2;
           const int64_t x = op.at("style").num() % 3 + 1;
           tr.push_back(c);
